@@ -25,6 +25,10 @@ const (
 
 const nextBinShift = 3
 
+// maxDepth is the deepest index whose bin numbers fit the
+// 32 bit bin field of the CSI format.
+const maxDepth = 10
+
 // MinimumShiftFor returns the lowest minimum shift value that can be used to index
 // the given maximum position with the given index depth.
 func MinimumShiftFor(max int64, depth uint32) (uint32, bool) {
